@@ -33,6 +33,7 @@ type Case struct {
 	MaxEvents    int    `json:"maxev,omitempty"`
 	NoTrace      bool   `json:"notrace,omitempty"` // do not ship the event list back (only its hash/len)
 	Init         int    `json:"init,omitempty"`    // >0: InitState("n", Init), InitState("box", &Box{Init}), InitState("k<Init%3>", "init")
+	Reader       bool   `json:"reader,omitempty"`  // call ParseReader instead of Parse, then parse something else through ParseReader and look at the first result again
 }
 
 // ErrRec is one element of the returned error list as seen from inside the package.
@@ -76,6 +77,7 @@ type Result struct {
 	Dropped      int       `json:"dropped,omitempty"`
 	Panic        string    `json:"panic,omitempty"`
 	InputChanged bool      `json:"inchg,omitempty"`
+	Unstable     string    `json:"unstable,omitempty"` // the returned value changed after a later ParseReader call
 	MemoEntries  int       `json:"memo,omitempty"`
 	ChoiceEvals  int       `json:"choiceevals,omitempty"` // sum of Stats.ChoiceAltCnt = choice expressions actually evaluated
 	GLog         string    `json:"glog,omitempty"`
